@@ -1,14 +1,21 @@
 #!/bin/bash
-# usage: tools/try_mutant.sh <patch.diff> <PROP> [tier]   - apply to /repo, run the check, always revert
+# usage: tools/try_mutant.sh <patch.diff> <PROP> [tier]
+# Applies the patch to the scratch worktree /tmp/mutv (HEAD of /repo), runs the check against it through
+# VERIF_REPO, and always reverts.  /repo itself is not touched.
 set -u
 PATCH="$1"; PROP="$2"; TIER="${3:-quick}"
+WT=/tmp/mutv
+[ -d $WT ] || git -C /repo worktree add -q --detach $WT HEAD
+cd $WT && git reset -q --hard && git checkout -q --detach $(git -C /repo rev-parse HEAD) && git clean -qfd
+git apply "$PATCH" || { echo "patch does not apply"; exit 9; }
 cd /verif
-git -C /repo diff --quiet || { echo "/repo is dirty, refusing"; exit 9; }
-git -C /repo apply "$PATCH" || { echo "patch does not apply"; exit 9; }
-trap 'git -C /repo checkout -- . ' EXIT
-./vcheck "$PROP" "$TIER" > /tmp/mutant_run.txt 2>&1
+OUT=/tmp/mutant_run_$$.txt
+VERIF_REPO=$WT ./vcheck "$PROP" "$TIER" > $OUT 2>&1
 RC=$?
-grep -E "^== .* exit|VIOLATION|HARNESS-ERROR|NON-REPRO" /tmp/mutant_run.txt | cut -c1-200 | head -8
-grep -A3 "REPRODUCED" /tmp/mutant_run.txt | head -8 | cut -c1-300
+git -C $WT reset -q --hard
+grep -E "^== .* exit|HARNESS-ERROR|NON-REPRO" $OUT | cut -c1-200 | head -4
+grep -c VIOLATION $OUT
+grep -A2 "REPRODUCED" $OUT | head -6 | cut -c1-300
 echo "exit=$RC"
+rm -f $OUT
 exit $RC
